@@ -61,6 +61,17 @@ fn main() {
                 }
             }
         }
+        Some("worker") => {
+            let id = args.get(2).unwrap_or_else(|| usage());
+            let stage = args.get(3).unwrap_or_else(|| usage());
+            match props::spec(id) {
+                Some(spec) => match spec.stages.iter().find(|s| s.name() == stage.as_str()) {
+                    Some(st) => engine::worker_main(st.as_ref()),
+                    None => 2,
+                },
+                None => 2,
+            }
+        }
         Some("replay") => {
             let id = args.get(2).unwrap_or_else(|| usage());
             let path = args.get(3).unwrap_or_else(|| usage());
